@@ -14,6 +14,10 @@ pub struct ModelCfg {
     pub piecewise: bool,
     pub unbounded: bool, // allow infinite declarations
     pub fractional: bool,
+    pub strict_cmp: bool,
+    /// inject constructs the compiler must reject or treat specially (non-linear terms, division by zero / by a
+    /// variable, empty aggregations, non-binary logic operands, user variables named like auxiliaries)
+    pub hostile: bool,
 }
 
 pub fn coef(r: &mut Rng, fractional: bool) -> f64 {
@@ -45,8 +49,11 @@ pub fn decls(r: &mut Rng, c: &ModelCfg) -> Vec<VarDecl> {
             7 => VariableType::Real(f64::NEG_INFINITY, f64::INFINITY),
             _ => VariableType::NonNegativeReal(0.0, f64::INFINITY),
         };
-        VarDecl { name: names[i].to_string(), ty }
-    }).collect()
+        let name = if c.hostile && r.chance(1, 6) {
+            r.pick(&["$abs_0", "$max_0", "$min_0", "$and_0", "$or_0", "$max_0_select_0", "$abs_0_positive", "$logic_witness_0", "x_1", "a__2"]).to_string()
+        } else { names[i].to_string() };
+        VarDecl { name, ty }
+    }).collect::<Vec<_>>().into_iter().fold(vec![], |mut acc: Vec<VarDecl>, d| { if !acc.iter().any(|x| x.name == d.name) { acc.push(d); } acc })
 }
 
 fn bool_vars(ds: &[VarDecl]) -> Vec<&VarDecl> { ds.iter().filter(|d| matches!(d.ty, VariableType::Boolean)).collect() }
@@ -57,6 +64,17 @@ pub fn num_exp(r: &mut Rng, ds: &[VarDecl], c: &ModelCfg, depth: u32) -> Exp {
         return if r.chance(2, 3) { Exp::Variable(r.pick(ds).name.clone()) } else { Exp::Number(constant(r, c.fractional)) };
     }
     let d = depth - 1;
+    if c.hostile && r.chance(1, 12) {
+        return match r.below(7) {
+            0 => Exp::BinOp(BinOp::Mul, Box::new(num_exp(r, ds, c, d)), Box::new(num_exp(r, ds, c, d))),
+            1 => Exp::BinOp(BinOp::Div, Box::new(num_exp(r, ds, c, d)), Box::new(Exp::Number(0.0))),
+            2 => Exp::BinOp(BinOp::Div, Box::new(Exp::Number(1.0)), Box::new(Exp::Variable(r.pick(ds).name.clone()))),
+            3 => if r.chance(1, 2) { Exp::Min(vec![]) } else { Exp::Max(vec![]) },
+            4 => Exp::And(vec![Exp::Variable(r.pick(ds).name.clone()), Exp::Number(*r.pick(&[1.0, 1.0, 2.0, 0.0]))]),
+            5 => Exp::Not(Box::new(num_exp(r, ds, c, d))),
+            _ => Exp::BinOp(BinOp::Mul, Box::new(Exp::Number(0.0)), Box::new(Exp::BinOp(BinOp::Div, Box::new(num_exp(r, ds, c, d)), Box::new(Exp::Number(0.0))))),
+        };
+    }
     match r.below(16) {
         0 | 1 | 2 => Exp::BinOp(BinOp::Add, Box::new(num_exp(r, ds, c, d)), Box::new(num_exp(r, ds, c, d))),
         3 | 4 => Exp::BinOp(BinOp::Sub, Box::new(num_exp(r, ds, c, d)), Box::new(num_exp(r, ds, c, d))),
@@ -134,9 +152,13 @@ pub fn build(opt: OptimizationType, objective: Exp, constraints: Vec<Constraint>
 
 pub fn model(r: &mut Rng, c: &ModelCfg) -> (Model, Vec<VarDecl>) {
     let ds = decls(r, c);
+    model_with(r, c, ds)
+}
+
+pub fn model_with(r: &mut Rng, c: &ModelCfg, ds: Vec<VarDecl>) -> (Model, Vec<VarDecl>) {
     let ncons = 1 + r.below(4);
     let mut cons = vec![];
-    let names = ["", "", "", "a", "b", "a", "cap"];
+    let names = ["", "", "", "a", "b", "a", "cap", "a__2", "a__3"];
     for _ in 0..ncons {
         let name = r.pick(&names).to_string();
         let k = r.below(10);
@@ -146,7 +168,7 @@ pub fn model(r: &mut Rng, c: &ModelCfg) -> (Model, Vec<VarDecl>) {
             // comparison of a logic value against a constant (normalised by the linearizer)
             let k = *r.pick(&[0.0, 1.0, 1.0, 0.5, 2.0, -1.0]);
             let e = bool_exp(r, &ds, c, c.depth);
-            let cmp = *r.pick(&[Comparison::LessOrEqual, Comparison::GreaterOrEqual, Comparison::Equal, Comparison::Less, Comparison::Greater]);
+            let cmp = if c.strict_cmp { *r.pick(&[Comparison::LessOrEqual, Comparison::GreaterOrEqual, Comparison::Equal, Comparison::Less, Comparison::Greater]) } else { comparison(r) };
             if r.chance(1, 2) { cons.push(Constraint::new(e, cmp, Exp::Number(k), name)); } else { cons.push(Constraint::new(Exp::Number(k), cmp, e, name)); }
         } else {
             let lhs = num_exp(r, &ds, c, c.depth);
